@@ -378,6 +378,179 @@ theorem tie_geom_GeometryCollection (gs : List (Geom α)) :
   simp only [transformS]
   cases collLoop t gs <;> simp [varLens, assign, lookup, pack]
 
+/-! ### Polygon: nested loops, `p2[i] = make([]Point, len(r))`, `p2[i][j] = pp2` -/
+theorem set_self_of_get {β : Type} : ∀ (l : List β) (k : Nat) (a : β), l[k]? = some a → l.set k a = l
+  | [], _, _, _ => rfl
+  | x :: xs, 0, a, h => by simp at h; simp [h]
+  | x :: xs, k + 1, a, h => by simp at h; simp [set_self_of_get xs k a h]
+
+/-- the lens of a two-level array variable (its rows) -/
+def rowsLens (dst ty : String) : Lens α (List (Geom α)) where
+  get env := match lookup dst env with
+    | some (.arr2 ty' a) => if ty' = ty then some a else none
+    | _ => none
+  put a env := assign dst (.arr2 ty a) env
+  get_put env a b h := by
+    cases hl : lookup dst env with
+    | none => simp [hl] at h
+    | some w => simp [lookup_assign_self dst _ env w hl]
+  put_put env b c := assign_assign _ _ _ _
+  put_get env a h := by
+    cases hl : lookup dst env with
+    | none => simp [hl] at h
+    | some w =>
+      cases w with
+      | arr2 ty' a' =>
+        simp [hl] at h
+        obtain ⟨h1, h2⟩ := h
+        subst h1; subst h2
+        exact assign_lookup _ _ _ hl
+      | _ => simp [hl] at h
+
+theorem rowsLens_get (dst ty : String) (env : Env α) (a : List (List (Geom α)))
+    (h : (rowsLens dst ty).get env = some a) : lookup dst env = some (.arr2 ty a) := by
+  simp only [rowsLens] at h
+  cases hl : lookup dst env with
+  | none => simp [hl] at h
+  | some w =>
+    cases w with
+    | arr2 ty' a' => simp [hl] at h; obtain ⟨h1, h2⟩ := h; subst h1; subst h2; rfl
+    | _ => simp [hl] at h
+
+/-- row `dst[i]` of a two-level array, `i` read from the environment -/
+def rowGet (dst i : String) (env : Env α) : Option (List (Geom α)) :=
+  match lookup dst env, lookup i env with
+  | some (.arr2 _ rows), some (.idx k) => rows[k]?
+  | _, _ => none
+def rowPut (dst i : String) (row : List (Geom α)) (env : Env α) : Env α :=
+  match lookup dst env, lookup i env with
+  | some (.arr2 ty rows), some (.idx k) => assign dst (.arr2 ty (rows.set k row)) env
+  | _, _ => env
+
+theorem rowGet_some (dst i : String) (env : Env α) (a : List (Geom α)) (h : rowGet dst i env = some a) :
+    ∃ ty rows k, lookup dst env = some (.arr2 ty rows) ∧ lookup i env = some (.idx k) ∧ rows[k]? = some a := by
+  unfold rowGet at h
+  cases hd : lookup dst env with
+  | none => simp [hd] at h
+  | some w =>
+    cases w with
+    | arr2 ty rows =>
+      cases hi : lookup i env with
+      | none => simp [hd, hi] at h
+      | some u =>
+        cases u with
+        | idx k => simp [hd, hi] at h; exact ⟨ty, rows, k, rfl, rfl, h⟩
+        | _ => simp [hd, hi] at h
+    | _ => simp [hd] at h
+
+def rowLens (dst i : String) (hne : i ≠ dst) : Lens α (Geom α) where
+  get := rowGet dst i
+  put := rowPut dst i
+  get_put env a b h := by
+    obtain ⟨ty, rows, k, hd, hi, hr⟩ := rowGet_some dst i env a h
+    have hk : k < rows.length := by
+      cases hlt : decide (k < rows.length) with
+      | true => exact of_decide_eq_true hlt
+      | false =>
+        have : ¬ k < rows.length := of_decide_eq_false hlt
+        simp [List.getElem?_eq_none (Nat.le_of_not_lt this)] at hr
+    simp [rowPut, rowGet, hd, hi, lookup_assign_self dst _ env _ hd, lookup_assign_ne i dst _ hne, hk]
+  put_put env b c := by
+    cases hd : lookup dst env with
+    | none => simp [rowPut, hd]
+    | some w =>
+      cases w with
+      | arr2 ty rows =>
+        cases hi : lookup i env with
+        | none => simp [rowPut, hd, hi]
+        | some u =>
+          cases u with
+          | idx k =>
+            simp [rowPut, hd, hi, lookup_assign_self dst _ env _ hd, lookup_assign_ne i dst _ hne, assign_assign]
+          | _ => simp [rowPut, hd, hi]
+      | _ => simp [rowPut, hd]
+  put_get env a h := by
+    obtain ⟨ty, rows, k, hd, hi, hr⟩ := rowGet_some dst i env a h
+    simp [rowPut, hd, hi, set_self_of_get rows k a hr, assign_lookup dst _ env hd]
+
+/-- what one iteration of `Polygon.Transform`'s outer loop computes: the transformed ring -/
+def elemRing (x : Geom α) : Except (Fail E) (List (Geom α)) :=
+  match x with
+  | .lineString r => mapE (elemPt t) (r.map Geom.point)
+  | _ => .error (.panic .typeAssert)   -- not reached: the elements of a Polygon are rings
+
+theorem mapE_elemRing (rs : List (List (Pt α))) :
+    mapE (elemRing t) (rs.map Geom.lineString) = match ringsT t rs with
+      | .ok q => .ok (q.map fun l => l.map Geom.point)
+      | .error e => .error e := by
+  induction rs with
+  | nil => rfl
+  | cons r rs ih =>
+    simp only [List.map, mapE, elemRing, ringsT, mapE_elemPt]
+    cases ptsT t r with
+    | error e => rfl
+    | ok q => simp only [ih]; cases ringsT t rs <;> rfl
+
+theorem hf_ring :
+    ∀ l x env a, (∃ p, x = Geom.point p) → (rowLens (α := α) "p2" "i" (by decide)).get env = some a → l < a.length →
+      popO (E := E) env.length (execL z (transformS t) (some t)
+        [.declPt "pp2", .callT "pp2" "pp", .ifErrRetNil, .store2 "p2" "i" "j" (.var "pp2")]
+        (("pp", .g x) :: ("j", .idx l) :: env) none) =
+      outOf (elemPt t x) fun q => .cont ((rowLens "p2" "i" (by decide)).put (a.set l q) env) none := by
+  intro l x env a hP hg hk
+  obtain ⟨ty, rows, k, hd, hi, hr⟩ := rowGet_some "p2" "i" env a hg
+  obtain ⟨p, rfl⟩ := hP
+  simp only [elemPt, callT, outOf]
+  cases h : t p <;>
+    simp [execL, exec1, getG, getIdx, lookup, assign, evalEx, setAt, popO, hd, hi, hr, hk, h, rowLens, rowPut, pop3]
+
+theorem hf_poly :
+    ∀ k x env a, (∃ r, x = Geom.lineString r) → (rowsLens (α := α) "p2" "Polygon").get env = some a → k < a.length →
+      popO (E := E) env.length (execL z (transformS t) (some t)
+        [.makeAt "p2" "i" "[]Point" "r", .range "j" "pp" "r"
+          [.declPt "pp2", .callT "pp2" "pp", .ifErrRetNil, .store2 "p2" "i" "j" (.var "pp2")]]
+        (("r", .g x) :: ("i", .idx k) :: env) none) =
+      outOf (elemRing t x) fun q => .cont ((rowsLens "p2" "Polygon").put (a.set k q) env) none := by
+  intro k x env rows hP hg hk
+  have hd := rowsLens_get _ _ _ _ hg
+  obtain ⟨r, rfl⟩ := hP
+  have hloop := loop_generic (E := E) (rowLens "p2" "i" (by decide))
+    (fun l x env err => popO env.length (execL z (transformS t) (some t)
+      [.declPt "pp2", .callT "pp2" "pp", .ifErrRetNil, .store2 "p2" "i" "j" (.var "pp2")]
+      (("pp", .g x) :: ("j", .idx l) :: env) err))
+    (elemPt t) (fun x => ∃ p, x = .point p) (hf_ring z t)
+    (r.map Geom.point) [] (List.replicate r.length (.point ⟨z, z⟩))
+    (("r", .g (.lineString r)) :: ("i", .idx k) ::
+      assign "p2" (.arr2 "Polygon" (rows.set k (List.replicate r.length (.point ⟨z, z⟩)))) env)
+    (by simp)
+    (by simp [rowLens, rowGet, lookup, lookup_assign_self "p2" _ env _ hd, hk])
+    (by simp)
+  simp only [elemRing]
+  simp [execL, exec1, getG, getIdx, lookup, assign, elems, hd, hk] at hloop ⊢
+  rw [hloop]
+  cases mapE (elemPt t) (r.map Geom.point) with
+  | error e => simp [outOf, popO]
+  | ok q =>
+    simp [outOf, popO, rowLens, rowPut, rowsLens, lookup, assign, lookup_assign_self "p2" _ env _ hd, pop2,
+      assign_assign]
+
+theorem tie_geom_Polygon (rs : List (List (Pt α))) :
+    runM z (transformS t) (some t) (meth "Polygon") (.polygon rs) = some (transformS t (.polygon rs)) := by
+  have hloop := loop_generic (E := E) (rowsLens "p2" "Polygon")
+    (fun k x env err => popO env.length (execL z (transformS t) (some t)
+      [.makeAt "p2" "i" "[]Point" "r", .range "j" "pp" "r"
+        [.declPt "pp2", .callT "pp2" "pp", .ifErrRetNil, .store2 "p2" "i" "j" (.var "pp2")]]
+      (("r", .g x) :: ("i", .idx k) :: env) err))
+    (elemRing t) (fun x => ∃ r, x = .lineString r) (hf_poly z t)
+    (rs.map Geom.lineString) [] (List.replicate rs.length [])
+    [("p2", .arr2 "Polygon" (List.replicate rs.length [])), ("p", .g (.polygon rs))]
+    (by simp) (by simp [rowsLens, lookup]) (by simp)
+  rw [mapE_elemRing] at hloop
+  simp [meth, Gen.geomMethods, List.lookup, runM, tyOf, execL, exec1, getG, lookup, elems, zeros] at hloop ⊢
+  rw [hloop]
+  simp only [transformS, polygonT]
+  cases ringsT t rs <;> simp [rowsLens, assign, lookup, pack, mapO_rows]
+
 /-! ### *Bounds: the four-corner ring handed to `Polygon.Transform` -/
 theorem tie_geom_Bounds (mn mx : Pt α) :
     runM z (transformS t) (some t) (meth "*Bounds") (.bounds mn mx) = some (transformS t (.bounds mn mx)) := by
@@ -390,6 +563,28 @@ theorem tie_geom_nil (dyn : Geom α → Except (Fail E) (Geom α)) (g : Geom α)
   cases g <;> first
     | exact absurd rfl h
     | simp [meth, Gen.geomMethods, List.lookup, runM, tyOf, execL, exec1, getG, lookup]
+
+/-- ALL EIGHT methods at once: the method of the receiver's dynamic type, as extracted from the source, run on
+the receiver with any transformer or nil — calls `x.Transform(t)` inside a body meaning the model's dispatch —
+returns what the model's `transform` returns (value, the transformer's error, or panic). -/
+theorem tie_geom_methods (topt : Option (TF E α)) (g : Geom α) (h : g ≠ .nil) :
+    runM z (fun x => match topt with | some t => transformS t x | none => .ok x) topt (meth (tyOf g)) g =
+      some (transform topt g) := by
+  cases topt with
+  | none =>
+    rw [tie_geom_nil z _ g h]
+    cases g <;> first | exact absurd rfl h | rfl
+  | some t =>
+    cases g with
+    | point p => exact tie_geom_Point z t p
+    | multiPoint ps => exact tie_geom_MultiPoint z t ps
+    | lineString l => exact tie_geom_LineString z t l
+    | multiLineString ls => exact tie_geom_MultiLineString z t ls
+    | polygon rs => exact tie_geom_Polygon z t rs
+    | multiPolygon ps => exact tie_geom_MultiPolygon z t ps
+    | collection gs => exact tie_geom_GeometryCollection z t gs
+    | bounds mn mx => exact tie_geom_Bounds z t mn mx
+    | nil => exact absurd rfl h
 
 /-- the methods named `Transform` in package geom are exactly the eight modelled ones, with one signature -/
 theorem tie_Geom :
